@@ -200,6 +200,29 @@ def add_engine(U):
         r == self.epoch_schedule.get(epoch),
         r.is_some() ==> r.unwrap().schedule.wf(),
 """)
+    # ---- the fetcher's give-up signal (C19: "stays requested until it has been stored")
+    U.raw("""
+pub struct Canceled;                                                             // ctx::Canceled
+impl WatchBlockStore { #[verifier::external_body] pub fn subscribe(&self) -> BlockStoreReceiver { unimplemented!() } }
+// sync::wait_for(ctx, recv, pred): Ok(v) only with a value of the channel on which the predicate returned true (A4); every writer preserves wf
+#[verifier::external_body]
+pub async fn wait_for_store<'a, F: Fn(&BlockStore) -> bool>(ctx: &Ctx, recv: &'a mut BlockStoreReceiver, f: F) -> (r: Result<&'a BlockStore, Canceled>)
+    requires forall|bs: &BlockStore| bs.wf() ==> #[trigger] f.requires((bs,)),
+    ensures r matches Ok(bs) ==> bs.wf() && f.ensures((bs,), true),
+{ unimplemented!() }
+""", label="prelude wait_until_queued", props=["C19"])
+    U.fn(F_MGR, "impl EngineManager :: fn wait_until_queued", wrap="impl EngineManager", ret="r", props=["C19"],
+         header_subs=[("ctx::Ctx", "Ctx"), ("validator::BlockNumber", "BlockNumber"), ("ctx::OrCanceled<BlockStoreState>", "Result<BlockStoreState, Canceled>")],
+         subs=[("sync::wait_for(ctx, &mut self.block_store.subscribe(), $F)", "wait_for_store(ctx, &mut verif_sub, $F)   /* R-let */")],
+         closures=[dict(prefix="|block_store|", ty="&BlockStore", ret="verif_b: bool",
+                        spec="requires {p}.wf() ensures verif_b ==> number.0 < {p}.queued.nxt()")],
+         proof_at_start="let mut verif_sub = self.block_store.subscribe();   /* R-let */",
+         rules_=("R-log", "R-errmsg", "R-underscore", "R-ctorfn"),
+         spec="""
+    ensures
+        // the fetcher stops asking for block `number` only on this signal: it is given only once the block has been queued for storage
+        r matches Ok(st) ==> number.0 < st.nxt(),
+""")
     U.fn(F_MGR, "impl EngineManager :: fn get_block", wrap="impl EngineManager", ret="r",
          header_subs=[("ctx::Ctx", "Ctx"), ("validator::BlockNumber", "BlockNumber"), ("ctx::Result<Option<Block>>", "Result<Option<Block>, CtxError>")],
          subs=[("let t = metrics::$X;", "", 1), ("t.observe();", "", 1),
